@@ -108,6 +108,12 @@ P.update({
         "operators) over generated lines (text around dates, no date, two dates, CR); the output must be exactly the lines "
         "the tree selects, in order; malformed/huge/deep expressions must end with an exit status and no report.",
    note=SAN + "probe H5 (src/dexpr.c): no negation flag left and no node reachable twice after dexpr_simplify. " + TB, ref="3 C17"),
+ "C18": dict(cat="exploration", tech="reference-model monitor over complete outputs + differential monitor across injected read() schedules (shimmed read, real pipe) + invariant probe H4 + ASan/UBSan on the exact-size window",
+   text="dconv -S [-f], dadd -S, dround -S and dgrep over generated byte streams (planted dates in arbitrary non-digit bytes; line "
+        "ends/dates at 4096 boundaries; lines of 1000..70000 bytes; 16383..40000 lines; 17 MiB; one line of 3..15 MiB; CRLF, "
+        "mixed, no final line feed): the output must equal the model byte for byte, and the same stream cut into other read() "
+        "results (1..4095 bytes, random, hazard cuts, a real pipe with pauses) must give the same bytes and status.",
+   note=SAN + "probe H4 (src/prchunk.c): window offsets ordered, bytes out + held == bytes read on every fill; lines beyond the 16 MiB window are outside the judged domain. " + TB, ref="3 C18"),
 })
 
 NOT_YET = {}
